@@ -1,7 +1,14 @@
 (* C18 driver: runs the call history of a case on the extracted model of the iterator and
    on the deque (Spec/Deque.v) holding the implementation's own item list, and compares
    every call's output.  [d] (drain) is next until None; [r] starts again from a fresh
-   iterator; both are expanded here, call by call, through the extracted step functions. *)
+   iterator; both are expanded here, call by call, through the extracted step functions.
+
+   The model's answer never copies the observation: where no iterator is handed out the model
+   says so from the case's own [it=] field (1: an iterator must be handed out - the model then
+   answers with the run on the expected items; 0: none may be; only the error kind after
+   [noiter=] is taken over, the property says nothing about it).  Item texts the generator
+   could not predict ([?]: malformed content behind a well-formed table) are taken from the
+   implementation's item list by position; their number and order are the model's. *)
 let show_err = function
   | ENull -> "Null" | EBounds -> "Bounds" | EZeroFill -> "ZeroFill" | EUnmapped -> "Unmapped"
   | EMisaligned -> "Misaligned" | EBadMagic -> "BadMagic" | EPeMagic -> "PeMagic" | EInsanity -> "Insanity"
@@ -91,7 +98,24 @@ let handle kind fs obs =
   let impl_items = if has_items then split_on ',' (field ofs "items") else [] in
   let limit = List.length impl_items + 64 in
   (* ---- model observation *)
-  let full = (match kind with "rich" | "imp32" | "imp64" | "dbg32" | "dbg64" | "exc64" -> true | _ -> false) in
+  let full = (match kind with "rich" | "imp32" | "imp64" | "dbg32" | "dbg64" | "exc64"
+                            | "res" | "iat32" | "iat64" | "int32" | "int64" | "dia32" | "dia64" -> true | _ -> false) in
+  (* forward iterators whose size hint is exact (Map over slice::Iter / Range / Zip behind `impl Iterator`) *)
+  let exact = (match kind with "exp32" | "exp64" | "wexp" -> true | _ -> false) in
+  (* is an iterator to be handed out?  Some true / Some false from the generator; None: not predicted *)
+  let it = (match List.assoc_opt "it" fs with Some "1" -> Some true | Some "0" -> Some false | _ -> None) in
+  let noiter_err = (match List.assoc_opt "noiter" ofs with Some e -> e | None -> "?") in
+  let tag_of_hdr () =
+    let hdr = bytes_of_hex (field fs "hdr") in
+    let a = Array.of_list hdr in
+    let e = a.(60) lor (a.(61) lsl 8) in
+    let magic = a.(e + 24) lor (a.(e + 25) lsl 8) in
+    if magic = 0x20b then (fun s -> "t64." ^ s) else (fun s -> "t32." ^ s) in
+  let strip s = if String.length s > 4 && (String.sub s 0 4 = "t32." || String.sub s 0 4 = "t64.") then String.sub s 4 (String.length s - 4) else s in
+  let impl_nth i = (match List.nth_opt impl_items i with Some x -> x | None -> "?") in
+  (* an expected item list with the unpredicted texts taken from the implementation's list by position *)
+  let fill (l : string list) = List.mapi (fun i s -> if s = "?" then strip (impl_nth i) else s) l in
+  let expected : string list option ref = ref None in
   let with_items (items : string list) (outs : string) = Printf.sprintf "items=%s out=%s" (join "," items) outs in
   let orig = (try field fs "model" = "orig" with _ -> false) in
   let mobs = (try (match kind with
@@ -128,29 +152,70 @@ let handle kind fs obs =
     | "imp32" | "imp64" | "dbg32" | "dbg64" | "wimp" | "wdbg" | "exc64" ->
       (* delegating iterators: the underlying slice is the expected entry list of the generator (structured
          inputs) or the implementation's own forward list (malformed inputs, where no expectation exists) *)
-      if wild && not has_items then obs else
-      let under = if wild then impl_items else split_on ',' (field fs "exp") in
+      if it = Some false then "noiter=" ^ noiter_err
+      else if it = None && not has_items then obs      (* outcome not predicted by the generator (old corpus files; a directory running into the fill) *)
+      else
+      let under = if wild && has_items then impl_items else split_on ',' (field fs "exp") in
       let inner = deleg_impl (fun (s : string) -> s) in
       if kind = "wimp" || kind = "wdbg" then begin
         (* the variant tag is part of the item text; take it from the expectation of the image's magic *)
-        let tag = if wild then (fun s -> s) else
-          (let hdr = bytes_of_hex (field fs "hdr") in
-           let a = Array.of_list hdr in
-           let e = a.(60) lor (a.(61) lsl 8) in
-           let magic = a.(e + 24) lor (a.(e + 25) lsl 8) in
-           if magic = 0x20b then (fun s -> "t64." ^ s) else (fun s -> "t32." ^ s)) in
+        let tag = if wild && has_items then (fun s -> s) else tag_of_hdr () in
         let impl = wrap_impl inner tag (fun l -> nat_of_int (List.length l)) in
         with_items (List.map tag under) (model_side impl under (fun s -> s) toks (List.length under + 64))
       end else
         with_items under (model_side inner under (fun s -> s) toks (List.length under + 64))
+    | "exp32" | "exp64" | "wexp" | "res" | "iat32" | "iat64" | "wiat" | "int32" | "int64" | "wint" | "dia32" | "dia64" | "wdia" | "icons" | "curs" ->
+      (* compositions of std adaptors (Model/ItersMore.v): the model builds the iterator from the tables of the case *)
+      if it = Some false then "noiter=" ^ noiter_err else begin
+        let lst k = split_on ',' (field fs k) in
+        let idm = (fun (s : string) -> s) in
+        let fuel n = (fun _ -> nat_of_int (n + 1)) in
+        let go (type s) (impl : (s, string) iter_impl) (st : s) (n : int) =
+          let its = items impl.m_next (fuel n) st in
+          expected := Some (List.map strip its);
+          with_items its (model_side impl st idm toks (List.length its + 64)) in
+        match kind with
+        | "exp32" | "exp64" | "wexp" ->
+          let sel = field fs "sel" in
+          let ft = lst "ft" and nm = lst "nm" and ix = lst "ix" in
+          (* the two components of the implementation's i-th item, for the texts that are not predicted *)
+          let comp i k = (match String.split_on_char '/' (impl_nth i) with [a; b] -> if k = 0 then a else b | _ -> "?") in
+          if sel = "iter" then go (exp_iter_impl idm) (fill ft) (List.length ft)
+          else begin
+            let name_text h = (match List.nth_opt nm h with Some "?" -> comp h 0 | Some s -> s | None -> "eBounds") in
+            (* By::hint: name_indices.get(hint) then functions.get(index), each Err(Bounds) when out of range *)
+            let hint_text h = (match List.nth_opt ix h with
+              | None -> "eBounds"
+              | Some i -> (match List.nth_opt ft (int_of_string i) with None -> "eBounds" | Some "?" -> comp h 1 | Some s -> s)) in
+            if sel = "names" then
+              go (exp_names_impl (fun h -> let h = int_of_n h in name_text h ^ "/" ^ hint_text h)) (exp_names_start nm) (List.length nm)
+            else
+              go (exp_nidx_impl (fun (h, i) -> name_text (int_of_n h) ^ "/" ^ i)) (exp_nidx_start nm ix) (List.length nm)
+          end
+        | "res" ->
+          let arr = lst "arr" and nn = n_of_string (field fs "nn") and ni = n_of_string (field fs "ni") in
+          let slice = (match field fs "sel" with "all" -> res_all nn ni arr | "named" -> res_named nn ni arr | _ -> res_id nn ni arr) in
+          go (entries_impl idm) slice (List.length slice)
+        | "icons" | "curs" ->
+          (* FlatMap over the group directory if it can be reached (grp=1), over nothing otherwise *)
+          let u = fill (lst "exp") in
+          go (icons_impl idm) (icons_start (if field fs "grp" = "1" then Some u else None)) (List.length u)
+        | "iat32" | "iat64" | "int32" | "int64" -> let u = fill (lst "exp") in go (entries_impl idm) u (List.length u)
+        | "dia32" | "dia64" -> let u = fill (lst "exp") in go (deleg_impl idm) u (List.length u)   (* slice_impl, inlined by the extraction *)
+        | "wiat" -> let u = fill (lst "exp") in go (wrap_entries_impl idm (tag_of_hdr ())) u (List.length u)
+        | "wdia" -> let u = fill (lst "exp") in go (wrap_slice_impl (tag_of_hdr ())) u (List.length u)
+        | _ -> let u = fill (lst "exp") in go (wrap_int_impl idm (tag_of_hdr ()) strip) u (List.length u)
+      end
     | _ -> "!unknown-kind")
     with Model_fault f -> "!fault:" ^ f) in
   (* ---- oracle: the implementation's outputs against the deque holding its own item list *)
   let ok =
     if bang then false
     else if not has_items then
-      (* no iterator was handed out: nothing to check, except that a structured input must produce one *)
-      wild
+      (* no iterator was handed out: right when the generator says none may be; when it does not predict the outcome
+         (malformed input of the first eleven kinds) there is nothing to check; a structured input must produce one *)
+      (match it with Some false -> true | Some true -> false | None -> wild)
+    else if it = Some false then false
     else (try
       let spec_groups = run_tokens [impl_items] (fun pool c -> step full pool c) toks limit in
       let impl_toks = split_on ',' (field ofs "out") in
@@ -159,12 +224,12 @@ let handle kind fs obs =
         | Reset -> io = "r"
         | _ ->
           let parts = List.map parse_out (String.split_on_char '+' io) in
-          outs_okb (fun a b -> a = b) full g parts) (List.combine spec_groups toks) impl_toks in
+          if exact then outs_eqb (fun a b -> a = b) g parts else outs_okb (fun a b -> a = b) full g parts) (List.combine spec_groups toks) impl_toks in
       List.for_all (fun b -> b) per
       && (wild || List.length impl_items = n_expected)
+      && (match !expected with Some e -> List.map strip impl_items = e | None -> true)
       && (wild || not (List.mem_assoc "exp" fs) ||
           (let e = split_on ',' (field fs "exp") in
-           let strip s = if String.length s > 4 && (String.sub s 0 4 = "t32." || String.sub s 0 4 = "t64.") then String.sub s 4 (String.length s - 4) else s in
            List.map strip impl_items = e))
     with Bad_obs -> false) in
   let ncalls = List.length toks in
